@@ -24,7 +24,7 @@ import (
 // explored under every schedule within the deviation bound.
 
 var c14Keys = []string{"a", "b", "c"}
-var c14Vals = []string{"", "x", "yy"}
+var c14Vals = []string{"", "x", "yy", "z"} // "x" and "z": same length, different content
 var c14Probes = []string{"", "a", "aa", "b", "b\xff", "c", "d"}
 
 func c14Alpha() []string {
@@ -150,9 +150,29 @@ func runC14Seq(t *c14Task) *c14Result {
 		db := memdb.New(comparer.DefaultComparer, 64)
 		m := model.NewKV(comparer.DefaultComparer.Compare)
 		for i, op := range seq {
+			// slices handed out before the operation (readers hold them without a lock)
+			type held struct {
+				k    string
+				v    []byte
+				copy string
+			}
+			var hs []held
+			if op != "reset" {
+				for _, k := range c14Keys {
+					if v, err := db.Get([]byte(k)); err == nil {
+						hs = append(hs, held{k, v, string(v)})
+					}
+				}
+			}
 			if v := c14Apply(db, m, op); v != "" {
 				res.Viol = append(res.Viol, fmt.Sprintf("sequence %v step %d: %s", seq, i, v))
 				return
+			}
+			for _, h := range hs {
+				if string(h.v) != h.copy {
+					res.Viol = append(res.Viol, fmt.Sprintf("sequence %v step %d: the value of %q handed out before the step changed from %q to %q", seq, i, h.k, h.copy, h.v))
+					return
+				}
 			}
 		}
 		res.Seqs++
@@ -259,6 +279,14 @@ func c14ConcExec(p *c14Conc, prefix []int) *explore.Exec {
 					case strings.HasPrefix(op, "Get:"):
 						k := op[4:]
 						v, err := db.Get([]byte(k))
+						if err == nil {
+							was := string(v)
+							vsched.Yield()
+							vsched.Yield()
+							if string(v) != was {
+								viol = append(viol, fmt.Sprintf("reader%d: Get(%q) result %q changed to %q while held", ri, k, was, v))
+							}
+						}
 						if err == nil && !ever[k+"="+string(v)] {
 							viol = append(viol, fmt.Sprintf("reader%d: Get(%q) = %q which was never stored", ri, k, v))
 						} else if err != nil && err != memdb.ErrNotFound {
@@ -276,7 +304,14 @@ func c14ConcExec(p *c14Conc, prefix []int) *explore.Exec {
 						continue
 					}
 					if ok {
-						k, v := string(it.Key()), string(it.Value())
+						kb, vb := it.Key(), it.Value()
+						k, v := string(kb), string(vb)
+						// the reader keeps looking at the slices while the writer runs on
+						vsched.Yield()
+						vsched.Yield()
+						if string(kb) != k || string(vb) != v {
+							viol = append(viol, fmt.Sprintf("reader%d: pair %q=%q changed to %q=%q while the reader was looking at it (never stored as such)", ri, k, v, kb, vb))
+						}
 						if !ever[k+"="+v] {
 							viol = append(viol, fmt.Sprintf("reader%d: %s yields %q=%q which was never stored", ri, op, k, v))
 						}
@@ -332,6 +367,7 @@ func c14Drivers() []c14Conc {
 		{Name: "put3-vs-seek-prev", Pre: []string{"pb1"}, Writer: []string{"pa1", "pc2", "pb0"}, Readers: [][]string{{"Seek:b", "Prev", "Next", "Next"}}, QB: 3, TB: 5},
 		{Name: "put3-vs-get-find", Pre: []string{"pb1"}, Writer: []string{"pa1", "pb2", "db"}, Readers: [][]string{{"Get:a", "Find:b", "Get:b"}}, QB: 3, TB: 5},
 		{Name: "put-del-vs-two-readers", Pre: []string{"pa1", "pc1"}, Writer: []string{"pb2", "da", "pa2"}, Readers: [][]string{{"First", "Next", "Next"}, {"Last", "Prev", "Prev"}}, QB: 2, TB: 3},
+		{Name: "same-length-overwrite-vs-readers", Pre: []string{"pa1", "pb1"}, Writer: []string{"pb3", "pa3", "pb1"}, Readers: [][]string{{"First", "Next"}, {"Get:b", "Find:a"}}, QB: 2, TB: 4},
 		{Name: "overwrite-vs-scan", Pre: []string{"pa1", "pb1", "pc1"}, Writer: []string{"pb2", "pb0", "pb2"}, Readers: [][]string{{"First", "Next", "Next", "Next"}, {"Get:b", "Get:b"}}, QB: 2, TB: 3},
 	}
 }
@@ -360,9 +396,9 @@ func init() {
 			pool := explore.NewPool(0, "worker", "C14")
 			defer pool.Close()
 			quick := c.Tier == "quick"
-			depth, move := 5, 2
+			depth, move := 4, 2
 			if !quick {
-				depth, move = 6, 3
+				depth, move = 5, 3
 			}
 			// sequential: shard by 2-operation prefixes
 			alpha := c14Alpha()
